@@ -90,6 +90,16 @@ CHECKS["C16"] = {
             "is opaque to Verus (only 'flag raised => token configured' is proved). Trait dispatch to the concrete handlers is abstracted by one shim handler.",
 }
 
+CHECKS["C05"] = {
+    "text": "Proof (Verus, unbounded) on the real RaftIndexInnerManager over a byte-level file model: an acknowledged write_index leaves exactly the saved record (term, vote, "
+            "membership, addresses, catalogue) behind an untouched 8-byte header, for every record size (length prefix => a shorter record after a longer one decodes correctly); "
+            "an acknowledged write_last_applied_log changes only the header; init returns exactly the values the image holds (for images > 20 bytes; the <= 20 byte case is the "
+            "recorded finding S5); and each actor-level saver (write_hard_state, write_member, write_node_addr, add_node_addr, write_logs, write_snapshots) replaces exactly its own "
+            "fields of the in-memory record and hands exactly that record to the writer — so interleaved catalogue saves cannot clobber a vote.",
+    "note": "A-WAIT: the async actor wrappers are outside Verus (async blocks) and modelled by a shim; protobuf wire format uninterpreted with unique decodability assumed; DTO<->message "
+            "round trip assumed; big-endian id helpers assumed; FileMessageReader::read_next assumed here, proved in unit filereader under A-FULLREAD; no crash model (flush is a no-op).",
+}
+
 NOT_APPLICABLE = {
     "C01": "equation between the states of seven actors across stop/restart; effects travel through Addr::send futures — no function-shaped contract can state it (DESIGN §6)",
     "C04": "crash points between file writes of several actors need a crash-Hoare logic over an external resource; neither Verus nor Kani models intermediate disk states (DESIGN §6)",
@@ -99,7 +109,6 @@ NOT_APPLICABLE = {
     "C15": "convergence after quiescence across nodes: liveness over message schedules and node failures (DESIGN §6)",
     "C02": "not yet built in this revision (planned: U-loginner)",
     "C03": "not yet built in this revision (planned: U-loginner)",
-    "C05": "not yet built in this revision (planned: U-raftindex)",
     "C09": "not yet built in this revision (planned: U-config*)",
     "C10": "not yet built in this revision (planned: U-configlistener/U-subscriber)",
     "C14": "not yet built in this revision (planned: U-processrange)",
